@@ -16,6 +16,7 @@ import NutsModel.C19.DidKey
 import NutsModel.C19.DidWeb
 import NutsModel.C19.Ambassador
 import NutsModel.C19.HttpCache
+import NutsModel.C19.Cred
 namespace Nuts.C19.Sites
 open Nuts
 
@@ -630,6 +631,11 @@ def httpCacheCfg : HttpCache.Cfg :=
       || has "http/client/caching.go:responseCache.insert" "for:h.head != nil && h.currentSizeBytes + len(entry.responseData) >= h.maxBytes"
     strict := has "http/client/caching.go:responseCache.insert" "for:h.head != nil && h.currentSizeBytes + len(entry.responseData) > h.maxBytes"
       || has "http/client/caching.go:responseCache.insert" "for:h.currentSizeBytes + len(entry.responseData) > h.maxBytes" }
+
+def credCfg : Cred.Cfg :=
+  { subjectErrChecked := has "vcr/credential/util.go:ResolveSubjectDID" "range:credentials"
+      && !has "vcr/credential/util.go:ResolveSubjectDID" "discard:credential.SubjectDID()"
+    proofCountExact := has "vcr/credential/resolver.go:ParseLDProof" "lencheck:len(proofs) != 1" }
 
 def ibltCfg : Iblt.Cfg :=
   { k := Facts.C19.ibltK
